@@ -35,13 +35,14 @@ type Solver struct {
 	fullT     time.Duration
 	mu        sync.Mutex
 	cache     map[string]*SolveResult
+	inflight  map[string]chan struct{}
 	totalSecs map[string]float64
 	counts    map[string]int
 }
 
 func newSolver(outDir string, full time.Duration) *Solver {
 	os.MkdirAll(outDir, 0o755)
-	return &Solver{outDir: outDir, quickT: 3 * time.Second, fullT: full, cache: map[string]*SolveResult{}, totalSecs: map[string]float64{}, counts: map[string]int{}}
+	return &Solver{outDir: outDir, quickT: 3 * time.Second, fullT: full, cache: map[string]*SolveResult{}, inflight: map[string]chan struct{}{}, totalSecs: map[string]float64{}, counts: map[string]int{}}
 }
 
 func runSolver(ctx context.Context, name string, args []string, file string, timeout time.Duration) (string, float64) {
@@ -93,11 +94,25 @@ func (s *Solver) solve(o *Obligation, expectSat bool) *SolveResult {
 	text := o.smt(false)
 	h := sha1.Sum([]byte(text))
 	key := hex.EncodeToString(h[:])
+	if expectSat {
+		key += "c"
+	}
 	s.mu.Lock()
 	if r, ok := s.cache[key]; ok {
 		s.mu.Unlock()
 		return r
 	}
+	if ch, ok := s.inflight[key]; ok {
+		// an identical query is being solved by another worker: wait for it
+		s.mu.Unlock()
+		<-ch
+		s.mu.Lock()
+		r := s.cache[key]
+		s.mu.Unlock()
+		return r
+	}
+	done := make(chan struct{})
+	s.inflight[key] = done
 	s.mu.Unlock()
 	file := filepath.Join(s.outDir, sanitize(o.Name)+"_"+key[:10]+".smt2")
 	os.WriteFile(file, []byte(text), 0o644)
@@ -105,7 +120,9 @@ func (s *Solver) solve(o *Obligation, expectSat bool) *SolveResult {
 	defer func() {
 		s.mu.Lock()
 		s.cache[key] = res
+		delete(s.inflight, key)
 		s.mu.Unlock()
+		close(done)
 	}()
 	ctx := context.Background()
 	if expectSat {
@@ -120,6 +137,17 @@ func (s *Solver) solve(o *Obligation, expectSat bool) *SolveResult {
 			res.Status = "sat"
 		}
 		return res
+	}
+	// stage 0: pointwise-grounded query without the instantiated quantified facts
+	if gtext := o.smtMode(false, true); gtext != "" {
+		gfile := strings.TrimSuffix(file, ".smt2") + "_ground.smt2"
+		os.WriteFile(gfile, []byte(gtext), 0o644)
+		out, secs := runSolver(ctx, "z3", nil, gfile, s.quickT)
+		s.record("z3", secs)
+		if firstLine(out) == "unsat" {
+			res.Status, res.Backend, res.Output, res.Secs = "unsat", "z3", out, secs
+			return res
+		}
 	}
 	out, secs := runSolver(ctx, "z3", nil, file, s.quickT)
 	s.record("z3", secs)
